@@ -102,7 +102,9 @@ def r41(e: Engine, rep: Report):
             if nm in FS_DELETE_PRIMS and isinstance(n.func, ast.Attribute) \
                     and ast.unparse(n.func.value) in ('os', 'shutil'):
                 rep.evaluations += 1
-                rep.check(f.qname in FS_DELETERS, 'R4.1', f.qname,
+                deleters = {OPS + '.' + m for m in common.owner_closure(
+                    e, OPS, {'delete_env', 'delete_meta'})}
+                rep.check(f.qname in deleters, 'R4.1', f.qname,
                           'file deletion primitive %s' % nm,
                           '%s deletes/truncates a file outside the two '
                           'removal helpers: between that deletion and the '
@@ -131,7 +133,9 @@ def r41(e: Engine, rep: Report):
                             'a file is opened for writing directly: not '
                             'atomic with respect to a crash', loc=f.loc(n))
     ctx = e.method_ctx(AIO, 'dump')
-    g = e.build(ctx)
+    g = e.build(ctx, inline=e.inline_same_self(
+        deny=['_write_piece', '_start_keep_awake_thread',
+              '_stop_keep_awake_thread']), max_depth=3)
     fx = e.facts(g)
     where = ctx.func.qname
     rep.functions.add(where)
@@ -175,8 +179,46 @@ def r41(e: Engine, rep: Report):
                   'rename(filename, self.path)')
         # complete: dominated by offset >= data_len
         facts = fx.at(n) or frozenset()
-        done = [k for p, k in facts if p and ' <= ' in k and 'offset' in k
-                and 'len' in k]
+        # names that accumulate what _write_piece reported as written
+        acc = set()
+        for s2 in g.of_kind('stmt'):
+            if isinstance(s2.ast, (ast.Assign, ast.AugAssign)):
+                v = s2.ast.value
+                tg = s2.ast.targets[0] if isinstance(s2.ast, ast.Assign) \
+                    else s2.ast.target
+                if isinstance(tg, ast.Name) and (
+                        any(isinstance(x, ast.Call) and
+                            ast.unparse(x.func).endswith('_write_piece')
+                            for x in ast.walk(v)) or
+                        (isinstance(s2.ast, ast.AugAssign) and any(
+                            isinstance(x, ast.Name) and
+                            path_of(x, s2.frame) in acc
+                            for x in ast.walk(v)))):
+                    acc.add(path_of(tg, s2.frame))
+        # `ret = self._write_piece(...); offset += ret`
+        for s2 in g.of_kind('stmt'):
+            if isinstance(s2.ast, ast.AugAssign) and \
+                    isinstance(s2.ast.target, ast.Name) and any(
+                        isinstance(x, ast.Name) and
+                        path_of(x, s2.frame) in acc
+                        for x in ast.walk(s2.ast.value)):
+                acc.add(path_of(s2.ast.target, s2.frame))
+
+        def complete(fs):
+            return [k for p, k in fs if p and ' <= ' in k and 'len' in
+                    k.split(' <= ')[0] and k.split(' <= ')[1] in acc]
+        done = complete(facts)
+        if not done:
+            # established inside a helper that does the writing: look at
+            # the state in which the helper returns
+            crs = [c for c in g.of_kind('call_return')
+                   if any(w.frame is c.extra.get('callee_frame')
+                          for w in wr)]
+            cb = dataflow.must_events_before(
+                g, lambda x: ['cr%d' % x.id] if x in crs else [])
+            for c in crs:
+                if ('cr%d' % c.id) in (cb.get(n.id) or ()):
+                    done = done or complete(fx.at(c) or frozenset())
         rep.check(bool(done), 'R4.1', where,
                   'rename only after everything was written',
                   'the temp file can be renamed onto the final path before '
@@ -191,17 +233,17 @@ def r41(e: Engine, rep: Report):
                   'after a failed or partial write', loc=n.loc(),
                   reason='on the normal path only')
     # the write loop advances by what was written and writes from `offset`
-    for n in wr:
-        rep.evaluations += 1
-        rep.check(any(sc.kind == 'loop' for sc in n.scopes), 'R4.1', where,
-                  'writes are repeated until complete',
-                  '_write_piece is called once: a short write publishes a '
-                  'truncated file', loc=n.loc(), reason='inside the loop')
+    rep.evaluations += 1
+    rep.check(any(any(sc.kind == 'loop' for sc in n.scopes) for n in wr),
+              'R4.1', where, 'writes are repeated until complete',
+              '_write_piece is never called in a loop: a short write '
+              'publishes a truncated file', loc=wr[0].loc(),
+              reason='a write inside a loop')
 
 
 def _order(e, rep, rule, cls, meth, seq, what):
     ctx = e.method_ctx(cls, meth)
-    g = e.build(ctx)
+    g = e.build(ctx, inline=e.inline_same_self(), max_depth=3)
     where = ctx.func.qname
     rep.functions.add(where)
 
@@ -241,7 +283,7 @@ def r42(e: Engine, rep: Report):
     where = DISK + '.write'
     for r in g.of_kind('stmt'):
         if isinstance(r.ast, ast.Return) and r.ast.value is not None and \
-                before.get(r.id) is not None:
+                before.get(r.id) is not None and r.frame is g.entry.frame:
             rep.evaluations += 1
             rep.check({'write_env', 'write_meta'} <= set(before.get(r.id)),
                       'R4.2', where, 'id returned only after both files '
@@ -345,6 +387,10 @@ def r44(e: Engine, rep: Report, rule: str = 'R4.4'):
                   witness=dataflow.render_path(pth, 10) if pth else None)
     ctx = e.method_ctx(OPS, 'get_ids')
     src = ast.unparse(ctx.func.node)
+    # class-level constants the function refers to count as its text
+    for k, v in common.class_constants(e, OPS).items():
+        if ('self.' + k) in src or ('cls.' + k) in src:
+            src += ' %r' % (v,)
     rep.evaluations += 1
     rep.check("'.env'" in src and 'env_dir' in src and 'listdir' in src,
               rule,
@@ -386,7 +432,7 @@ def r45(e: Engine, rep: Report):
               loc=ctx.func.loc())
     for meth in ('delete_env', 'delete_meta'):
         dctx = e.method_ctx(OPS, meth)
-        dg = e.build(dctx)
+        dg = e.build(dctx, inline=e.inline_same_self(), max_depth=3)
         rms = [n for n in dg.nodes if n.kind == 'call' and
                e.call_name(n) in ('remove', 'unlink')]
         rep.evaluations += 1
@@ -396,9 +442,7 @@ def r45(e: Engine, rep: Report):
                     loc=dctx.func.loc())
             continue
         for n in rms:
-            tol = any(sc.kind == 'try' and any(
-                builder_match(e, 'builtins.FileNotFoundError', types)
-                for types, h in sc.data['handlers']) for sc in n.scopes)
+            tol = common.tolerates(n)
             rep.check(tol, 'R4.5', dctx.func.qname,
                       'deletion tolerates an absent file',
                       'os.remove is not protected against OSError: after a '
